@@ -452,13 +452,13 @@ def run(chk):
     quick = chk.tier == 'quick'
     P = (chk.prop, chk.tier)
     cases = []
-    for K in ((0, 1, 2) if quick else (0, 1, 2, 3, 4)):
+    for K in ((0, 1, 2) if quick else (0, 1, 2, 3, 4, 5)):
         for w in ((1, 2) if quick else (1, 2, 3)):
             cases.append(P + ('get', K, w))
             cases.append(P + ('dealloc', K, w))
     for kind in ('pointer', 'array', 'function'):
         cases.append(P + (kind,))
-    chk.bounds = {'cache step': 'one get_unique_type / ctypedescr_dealloc from every INV state with <= %d other entries, keys of 1..%d words with symbolic bytes, each entry alive or dead' % ((2, 2) if quick else (4, 3)),
+    chk.bounds = {'cache step': 'one get_unique_type / ctypedescr_dealloc from every INV state with <= %d other entries, keys of 1..%d words with symbolic bytes, each entry alive or dead' % ((2, 2) if quick else (5, 3)),
                   'keys': 'pairs of pointer / array (lengths -2..3, item size 0..16 symbolic) / function (result, abi, ellipsis, 0..2 arguments incl. an array argument) constructions'}
     chk.outside = ['model.global_cache of the in-line FFI (a Python-level memo in front of the same backend constructors)',
                    'CPython\'s dict and weakref implementations (contract stubs)', 'free-threaded build: the step is taken under LOCK_UNIQUE_CACHE',
